@@ -82,6 +82,18 @@ pub fn block_on<F: std::future::Future>(f: F) -> F::Output {
     out
 }
 
+/// Like block_on, but on a runtime created for this call and dropped right after it.
+pub fn block_on_fresh<F: std::future::Future>(f: F) -> F::Output {
+    let workers = WORKERS.with(|w| w.get());
+    let rt = if workers > 0 {
+        tokio::runtime::Builder::new_multi_thread().worker_threads(workers).enable_all().build()
+    } else {
+        tokio::runtime::Builder::new_current_thread().enable_all().build()
+    }
+    .expect("runtime");
+    rt.block_on(f)
+}
+
 thread_local! {
     static WORKERS: std::cell::Cell<usize> = const { std::cell::Cell::new(0) };
 }
@@ -293,29 +305,19 @@ pub fn list(t: Transport, band: Option<u32>, subtree: &str, excl: &[String]) -> 
     })
 }
 
-pub fn delete(t: Transport, root: &Path, bands: &[u32], dry_run: bool, break_lock: bool) -> Outcome<DeleteStats> {
+/// delete_bands. Runs on a runtime of its own that is dropped as soon as the call returns, which
+/// is what a process that exits after the command does: a lock-release task spawned from Drop
+/// on an error path then never gets to run (conserve's own comment: "hopefully ... before the
+/// process exits"). Nothing waits for such tasks.
+pub fn delete(t: Transport, _root: &Path, bands: &[u32], dry_run: bool, break_lock: bool) -> Outcome<DeleteStats> {
     let ids: Vec<BandId> = bands.iter().map(|b| BandId::new(&[*b])).collect();
-    let lock = root.join("GC_LOCK");
     run(move |monitor| {
-        block_on(async {
+        block_on_fresh(async {
             let archive = Archive::open(t).await.map_err(errstr)?;
-            let r = archive
+            archive
                 .delete_bands(&ids, &DeleteOptions { dry_run, break_lock }, monitor)
                 .await
-                .map_err(errstr);
-            // let a lock-release task spawned from Drop run before the runtime goes away
-            for _ in 0..10 {
-                tokio::task::yield_now().await;
-            }
-            if r.is_err() {
-                for _ in 0..40 {
-                    if !lock.exists() {
-                        break;
-                    }
-                    tokio::time::sleep(std::time::Duration::from_micros(250)).await;
-                }
-            }
-            r
+                .map_err(errstr)
         })
     })
 }
